@@ -1,8 +1,93 @@
-(* C05 — Copies are faithful and independent. *)
-From Coq Require Import ZArith List Bool.
-From QCE Require Import Base.Prelude Core.Model C05.Proofs.
+(* C05 — Copies are faithful and independent.
+   Faithfulness is proved of the model: per operation class from the generated class table, structurally for every graph the
+   model builds (cwf; sized_prog = every command list within the documented 4999-level listing limit, so that every node is
+   listed).  Independence: in the functional model a copy is a value and shares nothing with the original, so "adding to or
+   unrolling one never changes what the other reports" holds by the absence of state (see the REMARK in C05/Proofs.v); for the
+   implementation it is observed by the correspondence run (k_copy_unchanged / k_orig_unchanged in C05/Run.v). *)
+From Coq Require Import ZArith List Bool Permutation.
+Import ListNotations.
+From QCE Require Import Base.Prelude Core.Model Core.CopyOrder Core.CopyProofs Core.CopyIso C05.Proofs.
 From Gen Require Import Ident Classes.
 
 Theorem C05_leaf_copy_faithful : forall l, class_faithful (class_of (l_cls l)) = true -> copy_leaf l = l.
 Proof. exact copy_leaf_faithful. Qed.
 Print Assumptions C05_leaf_copy_faithful.
+
+(* every class' copy() transfers the relation link and every init field (obligation on the generated table) *)
+Theorem C05_class_table_faithful : forallb class_faithful class_table = true.
+Proof. exact class_table_faithful. Qed.
+Print Assumptions C05_class_table_faithful.
+
+Theorem C05_leaf_copy_identity : forall l, copy_leaf l = l.
+Proof. exact copy_leaf_id. Qed.
+Print Assumptions C05_leaf_copy_identity.
+
+(* the copy of a graph is the graph renumbered in listing order (sigma = listing position); it lists in insertion order *)
+Theorem C05_copy_iso : forall env r ns, cwf (OComp r ns) ->
+  let sigma := sigma_of ns in
+  Permutation (bfs (parents ns)) (seq 0 (length ns)) /\
+  copy_nodes env ns =
+    map (fun i => let n := nth i ns dummy_node in
+                  Node (option_map sigma (n_parent n)) (link_map sigma (n_link n)) (copy_op env (n_op n)))
+        (bfs (parents ns)) /\
+  (forall i n, nth_error ns i = Some n ->
+     nth_error (copy_nodes env ns) (sigma i) =
+       Some (Node (option_map sigma (n_parent n)) (link_map sigma (n_link n)) (copy_op env (n_op n)))) /\
+  bfs (parents (copy_nodes env ns)) = seq 0 (length ns).
+Proof. exact copy_iso. Qed.
+Print Assumptions C05_copy_iso.
+
+(* the hypothesis of C05_copy_iso holds of everything a program builds *)
+Theorem C05_built_graphs_wf : forall env r p, sized_prog p -> cwf (OComp r (run_prog env p)).
+Proof. exact run_prog_cwf. Qed.
+Print Assumptions C05_built_graphs_wf.
+
+(* explicit copy: same leaves, same start and end, same order *)
+Theorem C05_copy_same_listing : forall env p, sized_prog p ->
+  listing env (copy_nodes env (run_prog env p)) = listing env (run_prog env p).
+Proof. exact prog_copy_same_listing. Qed.
+Print Assumptions C05_copy_same_listing.
+
+(* ... for every well-formed graph (also unrolled ones, with multi-links), at every nesting level, in every context *)
+Theorem C05_copy_same_listing_graph : forall env ns, cwf (OComp 1%Z ns) -> listing env (copy_nodes env ns) = listing env ns.
+Proof. exact copy_same_listing. Qed.
+Print Assumptions C05_copy_same_listing_graph.
+
+Theorem C05_copy_same_listing_op : forall env o, cwf o ->
+  forall c se, listing_op env (copy_op env o) c se = listing_op env o c se.
+Proof. exact copy_same_listing_op. Qed.
+Print Assumptions C05_copy_same_listing_op.
+
+Theorem C05_copy_same_duration : forall env p, sized_prog p ->
+  comp_duration env (copy_nodes env (run_prog env p)) = comp_duration env (run_prog env p).
+Proof. exact prog_copy_same_duration. Qed.
+Print Assumptions C05_copy_same_duration.
+
+(* implicit copy: the circuit added as a sub-circuit of an empty circuit *)
+Theorem C05_nested_same_listing : forall env p, sized_prog p ->
+  listing env (run_prog env [CSub 1%Z p]) = listing env (run_prog env p).
+Proof. exact prog_nested_same_listing. Qed.
+Print Assumptions C05_nested_same_listing.
+
+(* every internal relation re-pointed to the corresponding copied operation *)
+Theorem C05_relations_repointed : forall env p, sized_prog p ->
+  let ns := run_prog env p in
+  let sigma := sigma_of ns in
+  forall i n, nth_error ns i = Some n ->
+    nth_error (copy_nodes env ns) (sigma i) =
+      Some (Node (option_map sigma (n_parent n)) (link_map sigma (n_link n)) (copy_op env (n_op n))).
+Proof. exact prog_relations_repointed. Qed.
+Print Assumptions C05_relations_repointed.
+
+(* a copy of a copy is identical to the copy *)
+Theorem C05_copy_of_copy : forall env p, sized_prog p ->
+  copy_nodes env (copy_nodes env (run_prog env p)) = copy_nodes env (run_prog env p).
+Proof. exact prog_copy_of_copy. Qed.
+Print Assumptions C05_copy_of_copy.
+
+(* ... also after a repetition was unrolled (the graph then holds multi-links) *)
+Theorem C05_copy_same_listing_repeated : forall env p k, sized_prog p ->
+  all_listed (repeat_nodes env (run_prog env p) k) ->
+  listing env (copy_nodes env (repeat_nodes env (run_prog env p) k)) = listing env (repeat_nodes env (run_prog env p) k).
+Proof. exact prog_repeated_copy_same_listing. Qed.
+Print Assumptions C05_copy_same_listing_repeated.
